@@ -368,6 +368,7 @@ func minInt(a, b int) int {
 // ---------------------------------------------------------------------------- C12
 
 func runC12(c *Ctx) {
+	c.Conc = true // stateless calls are also replayed from several goroutines at once
 	r := c.Rng
 	atoms := [][]byte{nil, randBytes(r, 32), randBytes(r, 32), randBytes(r, 32)}
 	extract := func(ntx uint32, hs [][]byte, flags []byte) Event {
